@@ -112,17 +112,21 @@ func (it *Item[T]) Remove() bool {
 	}
 
 	// ok, go looking for the detach point in the stack.
+	var prev *Item[T]
 	for next := it.stack.head; next.Ok(); next = next.next {
 		// the next item is going to be the head of the new stack
 		if next == it {
 			it.stack.length--
 			it.stack = nil
-			next.next = it.next
+			if prev != nil {
+				prev.next = it.next
+			}
 			return true
 		}
 		if next.next == nil {
 			break
 		}
+		prev = next
 	}
 	return false
 }
